@@ -47,33 +47,77 @@ from .. import common as C
 # ERE syntax trees (python side): tuples
 #   ('emp',) ('chr',c) ('any',) ('cls',neg,items) ('bol',) ('eol',)
 #   ('cat',x,y) ('alt',x,y) ('star',x) ('plus',x) ('opt',x) ('rep',x,m,n|None) ('grp',x)
-#   items: tuple of ('c',ch) | ('r',lo,hi);  internal only: ('none',) = matches nothing
+#   items: tuple of ('c',ch) | ('r',lo,hi) | ('n',classname);  internal only: ('none',) = matches nothing
+#   TRE extensions outside POSIX that the specification also covers: ('wordb', 'bow'|'eow'|'wb'|'nwb') for \< \> \b \B,
+#   ('mac', c) for \w \W \s \S \d \D; \t \n \r \f \a \e and \xHH / \x{H..} are ('chr', ch)
 # ----------------------------------------------------------------------------------------------
 EMP, ANY, BOL, EOL, NONE = ('emp',), ('any',), ('bol',), ('eol',), ('none',)
 
 
+def _asc(f):
+    return lambda d: ord(d) < 128 and f(ord(d))
+
+
 CCLASS = {
-    'alpha': str.isalpha, 'digit': str.isdigit, 'upper': str.isupper, 'lower': str.islower, 'alnum': str.isalnum,
+    'alpha': _asc(lambda c: 65 <= c <= 90 or 97 <= c <= 122), 'digit': _asc(lambda c: 48 <= c <= 57),
+    'upper': _asc(lambda c: 65 <= c <= 90), 'lower': _asc(lambda c: 97 <= c <= 122),
+    'alnum': _asc(lambda c: 65 <= c <= 90 or 97 <= c <= 122 or 48 <= c <= 57),
+    'space': _asc(lambda c: 9 <= c <= 13 or c == 32), 'blank': _asc(lambda c: c in (9, 32)),
+    'punct': _asc(lambda c: 33 <= c <= 47 or 58 <= c <= 64 or 91 <= c <= 96 or 123 <= c <= 126),
+    'xdigit': _asc(lambda c: 48 <= c <= 57 or 65 <= c <= 70 or 97 <= c <= 102),
+    'cntrl': _asc(lambda c: c <= 31 or c == 127), 'print': _asc(lambda c: 32 <= c <= 126), 'graph': _asc(lambda c: 33 <= c <= 126),
 }
+WORDB_TEXT = {'bow': '\\<', 'eow': '\\>', 'wb': '\\b', 'nwb': '\\B'}
+WORDB_OF = {'<': 'bow', '>': 'eow', 'b': 'wb', 'B': 'nwb'}
+CTRL_ESC = {'t': '\t', 'n': '\n', 'r': '\r', 'f': '\f', 'a': '\a', 'e': '\x1b'}
+CTRL_SHOW = {v: '\\' + k for k, v in CTRL_ESC.items()}
+
+
+def is_word(d):
+    return d == '_' or CCLASS['alnum'](d)
 
 
 def cls(neg, spec):
     """bracket body text -> ('cls', neg, items); items: ('c', ch) | ('r', lo, hi) | ('n', classname)"""
     items, i = [], 0
+
+    def one(i):
+        # a single character, possibly written as the collating symbol [.c.] -> (char, next index)
+        if spec.startswith('[.', i):
+            if spec[i + 3:i + 5] != '.]': raise ValueError("ECOLLATE")
+            return spec[i + 2], i + 5
+        return spec[i], i + 1
     while i < len(spec):
-        if spec.startswith('[:', i):
+        if spec[i] == '\\' and i + 1 < len(spec):
+            # hawk (tre-parse.c, "HAWK: handle \\ as an escaper"), like gawk: a backslash quotes the next character inside [ ]
+            items.append(('c', spec[i + 1])); i += 2
+        elif spec.startswith('[=', i):
+            if spec[i + 3:i + 5] != '=]': raise ValueError("ECOLLATE")
+            items.append(('c', spec[i + 2])); i += 5
+        elif spec.startswith('[.', i):
+            c, j = one(i)
+            if j + 1 < len(spec) and spec[j] == '-':
+                hi, j2 = one(j + 1)
+                items.append(('r', c, hi)); i = j2
+            else:
+                items.append(('c', c)); i = j
+        elif spec.startswith('[:', i):
             j = spec.index(':]', i)
             name = spec[i + 2:j]
             if name not in CCLASS: raise ValueError("ECTYPE")
             items.append(('n', name)); i = j + 2
+            if spec[i:i + 1] == '-' and i + 1 < len(spec): raise ValueError("ERANGE")
         elif i + 2 < len(spec) and spec[i + 1] == '-' and not spec.startswith('[:', i + 2):
-            items.append(('r', spec[i], spec[i + 2])); i += 3
+            hi, j2 = one(i + 2)
+            if hi < spec[i]: raise ValueError("ERANGE")
+            items.append(('r', spec[i], hi)); i = j2
         else:
             items.append(('c', spec[i])); i += 1
     return ('cls', neg, tuple(items))
 
 
 def show_item(x):
+    if x[0] == 'c' and x[1] in '\\]': return '\\' + x[1]
     return x[1] if x[0] == 'c' else x[1] + '-' + x[2] if x[0] == 'r' else '[:' + x[1] + ':]'
 
 
@@ -85,7 +129,10 @@ def _prec(t):
 def show(t):
     k = t[0]
     if k == 'chr':
+        if t[1] in CTRL_SHOW: return CTRL_SHOW[t[1]]
         return ('\\' + t[1]) if t[1] in '.[]()*+?{}|^$\\' else t[1]
+    if k == 'wordb': return WORDB_TEXT[t[1]]
+    if k == 'mac': return '\\' + t[1]
     if k == 'any': return '.'
     if k == 'bol': return '^'
     if k == 'eol': return '$'
@@ -97,7 +144,7 @@ def show(t):
     if k == 'cat':
         return ''.join(show(x) if _prec(x) >= 1 else '(' + show(x) + ')' for x in t[1:])
     x = t[1]
-    s = show(x) if x[0] in ('chr', 'any', 'cls', 'grp') else '(' + show(x) + ')'
+    s = show(x) if x[0] in ('chr', 'any', 'cls', 'grp', 'mac') else '(' + show(x) + ')'
     if k == 'star': return s + '*'
     if k == 'plus': return s + '+'
     if k == 'opt': return s + '?'
@@ -154,8 +201,10 @@ def parse_ere(p):
             j = pos[0]
             if peek() == ']': pos[0] += 1
             while peek() is not None and peek() != ']':
-                if p.startswith('[:', pos[0]):
-                    e = p.find(':]', pos[0] + 2)
+                if peek() == '\\' and pos[0] + 1 < len(p):
+                    pos[0] += 2
+                elif p.startswith('[:', pos[0]) or p.startswith('[.', pos[0]) or p.startswith('[=', pos[0]):
+                    e = p.find(p[pos[0] + 1] + ']', pos[0] + 2)
                     if e < 0: raise ValueError("ECTYPE")
                     pos[0] = e + 2
                 else:
@@ -170,6 +219,15 @@ def parse_ere(p):
             d = peek()
             if d is None: raise ValueError("EESCAPE")
             pos[0] += 1
+            if d in CTRL_ESC: return ('chr', CTRL_ESC[d])
+            if d in 'wWsSdD': return ('mac', d)
+            if d in WORDB_OF: return ('wordb', WORDB_OF[d])
+            if d == 'x':
+                m = _re.match(r'\{([0-9a-fA-F]*)\}|([0-9a-fA-F]{1,2})', p[pos[0]:])
+                if not m: raise ValueError("EBRACE")
+                pos[0] += m.end()
+                return ('chr', chr(int(m.group(1) if m.group(1) is not None else m.group(2), 16) if (m.group(1) or m.group(2)) else 0))
+            if d == 'Q' or d.isdigit(): raise ValueError("excluded extension")
             return ('chr', d)
         if c in '*+?{': raise ValueError("BADRPT")
         return ('chr', c)
@@ -177,6 +235,7 @@ def parse_ere(p):
     def post(a):
         while True:
             c = peek()
+            if c in ('*', '+', '?') and p[pos[0] + 1:pos[0] + 2] == '?': raise ValueError("excluded extension: minimal repetition")
             if c == '*': a = ('star', a); pos[0] += 1
             elif c == '+': a = ('plus', a); pos[0] += 1
             elif c == '?': a = ('opt', a); pos[0] += 1
@@ -197,8 +256,23 @@ def parse_ere(p):
 # python reference matcher (the oracle of phase 1; deliberately independent of the Lean code)
 # ----------------------------------------------------------------------------------------------
 class PM:
-    def __init__(self, s, icase, notbol):
-        self.s, self.n, self.ic, self.nb, self.memo = s, len(s), icase, notbol, {}
+    MAC = {'w': ('cls', False, (('n', 'alnum'), ('c', '_'))), 'W': ('cls', True, (('n', 'alnum'), ('c', '_'))),
+           's': ('cls', False, (('n', 'space'),)), 'S': ('cls', True, (('n', 'space'),)),
+           'd': ('cls', False, (('n', 'digit'),)), 'D': ('cls', True, (('n', 'digit'),))}
+
+    def __init__(self, s, icase, eflags):
+        """eflags: bit 0 = NOTBOL, bit 1 = NOTEOL"""
+        eflags = int(eflags)
+        self.s, self.n, self.ic, self.nb, self.ne, self.memo = s, len(s), icase, bool(eflags & 1), bool(eflags & 2), {}
+
+    def wordb(self, k, i):
+        """tre-match-ut.h CHECK_ASSERTIONS: the matcher knows only the subject it is given"""
+        pw = i > 0 and is_word(self.s[i - 1])
+        nw = i < self.n and is_word(self.s[i])
+        if k == 'bow': return (not pw) and nw
+        if k == 'eow': return pw and not nw
+        if k == 'wb': return i == 0 or i == self.n or pw != nw
+        return i != 0 and i != self.n and pw == nw
 
     def ceq(self, c, d):
         return c.lower() == d.lower() if self.ic else c == d
@@ -251,7 +325,11 @@ class PM:
                 if f(d) or (self.ic and (f(d.lower()) or f(d.upper()))): return ()
             return (i + 1,)
         if op == 'bol': return (i,) if i == 0 and not self.nb else ()
-        if op == 'eol': return (i,) if i == n else ()
+        if op == 'eol': return (i,) if i == n and not self.ne else ()
+        if op == 'wordb': return (i,) if self.wordb(t[1], i) else ()
+        if op == 'mac':
+            m = self.MAC[t[1]]
+            return (i + 1,) if i < n and self.chas(m[1], m[2], self.s[i]) else ()
         if op == 'grp': return self.ends(t[1], i)
         if op == 'cat': return self._step(t[2], self.ends(t[1], i))
         if op == 'alt': return self.ends(t[1], i) | self.ends(t[2], i)
@@ -284,7 +362,7 @@ class PM:
         self.memo[k] = frozenset()
         op = t[0]
         out = set()
-        if op in ('chr', 'any', 'cls', 'nset'): out = {i}
+        if op in ('chr', 'any', 'cls', 'nset', 'mac'): out = {i}
         elif op == 'grp': out = set(self.alive(t[1], i))
         elif op == 'cat':
             out = set(self.alive(t[1], i))
@@ -325,7 +403,7 @@ def _alt(x, y):
 def _asserts(E):
     if E is None: return None
     r = EMP
-    for a in sorted(E): r = _cat(r, (a,))
+    for a in sorted(E): r = _cat(r, a)
     return r
 
 
@@ -382,7 +460,9 @@ def _expand(t, o=None, inexp=False):
         if 'overlap' in o['rules'] or drop:
             return ('nset', tre_negated_set(t[2], o['ic'], 'overlap' not in o['rules'], o['tie']), () if drop else names)
         return t
-    if k in ('emp', 'chr', 'any', 'cls', 'bol', 'eol'): return t
+    if k == 'mac' and o and t[1] in 'WSD':
+        return _expand(PM.MAC[t[1]], o, inexp)      # a macro is parsed as the bracket it stands for
+    if k in ('emp', 'chr', 'any', 'cls', 'bol', 'eol', 'wordb', 'mac'): return t
     if k == 'grp': return _expand(t[1], o, inexp)
     if k in ('cat', 'alt'): return (k, _expand(t[1], o, inexp), _expand(t[2], o, inexp))
     if k == 'star': return ('it', _expand(t[1], o, inexp), 0, -1)
@@ -411,8 +491,8 @@ def _EN(t):
     """(E, N): E = assertion set of the one empty path TRE keeps (None: not nullable); N = tree for the non-empty matches"""
     k = t[0]
     if k == 'emp': return (frozenset(), None)
-    if k in ('chr', 'any', 'cls', 'nset'): return (None, t)
-    if k in ('bol', 'eol'): return (frozenset([k]), None)
+    if k in ('chr', 'any', 'cls', 'nset', 'mac'): return (None, t)
+    if k in ('bol', 'eol', 'wordb'): return (frozenset([t]), None)
     if k == 'cat':
         (ex, nx), (ey, ny) = _EN(t[1]), _EN(t[2])
         E = (ex | ey) if (ex is not None and ey is not None) else None
@@ -443,6 +523,7 @@ def has_anchor(t):
 
 def has_negated_bracket(t):
     if t[0] == 'cls': return bool(t[1])
+    if t[0] == 'mac': return t[1] in 'WSD'
     return any(has_negated_bracket(x) for x in t[1:3] if isinstance(x, tuple) and x and x[0] in
                ('cls', 'cat', 'alt', 'star', 'plus', 'opt', 'rep', 'grp'))
 
@@ -450,7 +531,7 @@ def has_negated_bracket(t):
 def glibc_known(t, inrep=False):
     """glibc's regexec mishandles ^ and $ inside a repeated group ((^a)+ on "aa" -> [0,2); ($a){0,2} on "a" -> [0,1))"""
     k = t[0]
-    if k in ('bol', 'eol'): return inrep
+    if k in ('bol', 'eol', 'wordb'): return inrep
     if k in ('star', 'plus'): return glibc_known(t[1], True)
     if k == 'rep': return glibc_known(t[1], inrep or t[3] is None or t[3] >= 2)
     if k in ('opt', 'grp'): return glibc_known(t[1], inrep)
@@ -459,7 +540,7 @@ def glibc_known(t, inrep=False):
 
 
 def _has_pos(t):
-    return t[0] in ('chr', 'any', 'cls') or any(_has_pos(x) for x in t[1:3] if isinstance(x, tuple) and x and x[0] in
+    return t[0] in ('chr', 'any', 'cls', 'mac') or any(_has_pos(x) for x in t[1:3] if isinstance(x, tuple) and x and x[0] in
                                                 ('emp', 'chr', 'any', 'cls', 'bol', 'eol', 'cat', 'alt', 'star', 'plus', 'opt', 'rep', 'grp'))
 
 
@@ -470,9 +551,9 @@ def glibc_skip(t):
     def zdepth(t):
         # (iteration nesting depth of a position-free subtree that holds an anchor, or -1), found-anywhere flag
         k = t[0]
-        if k in ('bol', 'eol'): return 0
+        if k in ('bol', 'eol', 'wordb'): return 0
         if k in ('emp',): return -1
-        if k in ('chr', 'any', 'cls'): return None
+        if k in ('chr', 'any', 'cls', 'mac'): return None
         if k == 'grp': return zdepth(t[1])
         if k in ('cat', 'alt'):
             a, b = zdepth(t[1]), zdepth(t[2])
@@ -481,6 +562,16 @@ def glibc_skip(t):
         a = zdepth(t[1])
         if a is None: return None
         return a + 1 if a >= 0 else -1
+    def lacks(t):
+        # constructs glibc does not have (\d \D, control and hex escapes) or defines differently at the ends of the
+        # subject (\b \B: TRE lets \b hold unconditionally at position 0 and at the end)
+        k = t[0]
+        if k == 'mac': return t[1] in 'dD'
+        if k == 'wordb': return t[1] in ('wb', 'nwb')
+        if k == 'chr': return ord(t[1]) < 32 or ord(t[1]) > 126
+        return any(lacks(x) for x in t[1:3] if isinstance(x, tuple) and x and isinstance(x[0], str) and len(x[0]) > 1)
+    if lacks(t): return True
+
     def walk(t, outer):
         z = zdepth(t)
         if z is not None and z >= 2 and z + outer >= 3: return True
@@ -554,6 +645,82 @@ def named_bracket_atoms():
     return out
 
 
+ESCAPE_PATTERNS = ['a\\.b', '\\.+', '[.]', '\\\\', '\\*a', 'a\\|', '\\(a\\)', '\\$', '\\^a', 'a\\+', '\\?', '\\{', 'a\\}', '\\[a\\]',
+                   '[*.]+', '(\\.|a)*\\*', 'a\\/a', '[\\]', '[a\\]+', '\\.\\.', '.\\..']
+WORD_TEMPLATES = ['\\<a', 'a\\>', '\\ba+\\b', 'a\\Ba', '\\w+', '\\W+', '\\d+', '\\D+', '\\s*a', '\\S+', '(\\<a|B\\>)+', '(\\<a){2}',
+                  '(a\\>|B)*', '\\b', '\\B', '^\\w+$', '\\<\\w+\\>', '\\w\\W\\w', '(\\w|-)+\\>', '\\<(a|1)+', '\\Ba\\B', '(\\b|a)+', '\\d{2}',
+                  '[^\\W]'.replace('[^\\W]', '\\W{2}'), '(\\D1){1,2}', '\\ta', 'a\\n', '\\e|\\f|\\r|\\a']
+CLASS_NAMES = ['alpha', 'digit', 'upper', 'lower', 'alnum', 'space', 'blank', 'punct', 'xdigit', 'cntrl', 'print', 'graph']
+CLASS_ALPHA = "aGf1_-~\x01"
+COLLATING_PATTERNS = ['[[.a.]]', '[[=a=]b]+', '[[.a.]-c]', '[^[.-.]a]', '[[.a.][.b.]]', 'c[[=b=]]*']
+INVALID_PATTERNS = ['(', '(a', '[a', '[', '[]', 'a{2,1}', 'a{1', 'a{1,2,3}', 'a{x}', 'a{}', '[b-a]', '[[:foo:]]', '[[:alpha:', 'a\\',
+                    '[[:alpha:]-z]', '(a|b', 'a(b(c)', '[[.ab.]]']
+HEX_PATTERNS = ['\\x41', '\\x41b', 'b\\x41', '\\x{41}', '\\x{41}b', '\\x4bb', '(\\x41|b)+', '\\x61{2}', 'a\\x2Ab', '\\x{4b}+', '\\x4 ']
+BOUNDS = [(0, 0), (0, 1), (0, 2), (0, 3), (0, None), (1, 1), (1, 2), (1, 3), (1, None), (2, 2), (2, 3), (2, None), (3, 3), (3, None)]
+BOUND_TEXTS = ['a{0,0}', 'a{1,1}b', '(ab){2,2}', 'a{00}', 'a{01,02}', 'a{2}{2}'.replace('a{2}{2}', '(a{2}){2}'), 'a{10}', 'a{0,10}b']
+
+
+def extension_families(ctx, cases, pats):
+    """families added for the parts of tre-parse.c / the matchers / the entry points that the ERE-core families do not
+    reach (coverage/C06.json): escapes, TRE's extensions that the specification covers (macros, word assertions,
+    control and hex escapes), all twelve named classes, collating symbols, every interval form, patterns that must
+    be rejected, NOTEOL, and a sample through every library / interpreter entry point"""
+    rng = ctx.rng
+    quick = ctx.tier == "quick"
+
+    def fixed(texts, family, alpha, maxlen, ics=(0,), **kw):
+        for p in texts:
+            try:
+                t = parse_ere(p)
+            except (ValueError, IndexError):
+                continue
+            for ic in ics:
+                cases.append(Case(p, t, ic, family, alpha=alpha, maxlen=maxlen, **kw))
+    fixed(ESCAPE_PATTERNS, "escapes", "a.*\\|(/", 3)
+    fixed(WORD_TEMPLATES, "word", "aB1_-.", 3 if quick else 4, ics=(0, 1))
+    fixed(HEX_PATTERNS, "hex", "AKab4}*", 2)
+    fixed(COLLATING_PATTERNS, "collating", "abc-", 2)
+    # small trees over word assertions and macros
+    watoms = [('chr', 'a'), ('chr', '-'), ('wordb', 'bow'), ('wordb', 'eow'), ('wordb', 'wb'), ('wordb', 'nwb'), ('mac', 'w'), ('mac', 'W')]
+    by = trees_by_size(3, atoms=watoms, unary=['star', 'plus', 'opt', ('rep', 2, 2)])
+    seen = set()
+    for n in sorted(by):
+        for t in by[n]:
+            pp = show(t)
+            if pp in seen: continue
+            seen.add(pp)
+            cases.append(Case(pp, t, 0, "word", alpha="a-_", maxlen=3 if quick else 4))
+    # all twelve named classes
+    for nm in CLASS_NAMES:
+        for neg in (False, True):
+            b = cls(neg, '[:%s:]' % nm)
+            for t in (b, ('plus', b), ('rep', b, 2, 2)):
+                for ic in (0, 1):
+                    cases.append(Case(show(t), t, ic, "classes", alpha=CLASS_ALPHA, maxlen=2))
+    # every interval form
+    for base in (('chr', 'a'), ('grp', ('cat', ('chr', 'a'), ('chr', 'b'))), ('grp', ('alt', ('chr', 'a'), ('chr', 'b'))), cls(False, 'ab')):
+        for m, n in BOUNDS:
+            r = ('rep', base, m, n)
+            for t in (r, ('cat', r, ('chr', 'a'))):
+                cases.append(Case(show(t), t, 0, "bounds", alpha="ab", maxlen=5 if quick else 6))
+    fixed(BOUND_TEXTS, "bounds", "ab", 4)
+    # patterns POSIX defines as invalid: both sides must reject them
+    for p in INVALID_PATTERNS:
+        cases.append(Case(p, EMP, 0, "invalid", notbol=0, subj="a"))
+    # NOTEOL (library flag): every small tree with a `$`, and a sample of the others, under eflags 0..3
+    small = exhaustive_patterns(3)
+    keys = [p for p in small if '$' in p] + rng.sample([p for p in small if '$' not in p], 60 if quick else 300)
+    for p in keys:
+        cases.append(Case(p, small[p], 0, "noteol", alpha="ab", maxlen=3, alle=True))
+    # every entry point (M requests carry nz np px pb vu vb): sample of patterns x random subjects x eflags x IGNORECASE
+    pool = list(small.items()) + [(p, parse_ere(p)) for p in WORD_TEMPLATES[:20] + ESCAPE_PATTERNS[:8] + ['[a-c]+', '[^a-bB-C]', '[[:digit:]]+b', '(a|ab)(c|bcd)(d*)']]
+    for _ in range(900 if quick else 6000):
+        p, t = rng.choice(pool)
+        if p == '': continue
+        subj = ''.join(rng.choice("abAc1-") for _ in range(rng.randrange(0, 7)))
+        cases.append(Case(p, t, int(rng.random() < 0.3), "api", notbol=rng.randrange(4), subj=subj))
+
+
 def trees_by_size(maxsize, atoms=ATOMS, unary=UNARY):
     by = {1: list(atoms)}
     for n in range(2, maxsize + 1):
@@ -622,8 +789,8 @@ def random_tree(rng, size):
 def expanded_size(t):
     """(number of positions after TRE expands the bounded repeats, iteration nesting depth)"""
     k = t[0]
-    if k in ('chr', 'any', 'cls'): return (1, 0)
-    if k in ('emp', 'bol', 'eol'): return (0, 0)
+    if k in ('chr', 'any', 'cls', 'mac'): return (1, 0)
+    if k in ('emp', 'bol', 'eol', 'wordb'): return (0, 0)
     if k == 'grp': return expanded_size(t[1])
     if k in ('cat', 'alt'):
         a, b = expanded_size(t[1]), expanded_size(t[2])
@@ -642,12 +809,16 @@ def subjects(alpha, maxlen):
 # running both sides
 # ----------------------------------------------------------------------------------------------
 class Case:
-    __slots__ = ("line", "pat", "tree", "icase", "mode", "alpha", "maxlen", "notbol", "subj", "family", "noglibc")
+    __slots__ = ("line", "pat", "tree", "icase", "mode", "alpha", "maxlen", "notbol", "subj", "family", "noglibc", "alle")
 
-    def __init__(self, pat, tree, icase, family, alpha=None, maxlen=None, notbol=0, subj=None):
-        self.pat, self.tree, self.icase, self.family = pat, tree, icase, family
-        self.noglibc = glibc_skip(tree)
-        flags = icase | (2 if self.noglibc else 0)
+    def __init__(self, pat, tree, icase, family, alpha=None, maxlen=None, notbol=0, subj=None, alle=False):
+        """`notbol` is the eflags value of an M request (bit 0 NOTBOL, bit 1 NOTEOL); `alle`: an A request answers for
+        eflags 0..3 instead of 0..1"""
+        self.pat, self.tree, self.icase, self.family, self.alle = pat, tree, icase, family, alle
+        # glibc is not asked when its regcomp blows up, when the pattern uses an escape it lacks, or a backslash inside a
+        # bracket expression (hawk follows the awk convention there, regcomp takes it literally)
+        self.noglibc = glibc_skip(tree) or '\\x' in pat or bool(_re.search(r'\[\^?\]?[^\]]*\\\\', pat))
+        flags = icase | (2 if self.noglibc else 0) | (4 if alle else 0)
         if subj is None:
             self.mode, self.alpha, self.maxlen, self.notbol, self.subj = 'A', alpha, maxlen, None, None
             self.line = "A %d %d %s %s" % (flags, maxlen, alpha, pat)
@@ -658,7 +829,7 @@ class Case:
     def pairs(self):
         """[(subject, notbol)] in the order of the result columns"""
         if self.mode == 'M': return [(self.subj, self.notbol)]
-        return [(s, nb) for s in _subjects_cached(self.alpha, self.maxlen) for nb in (0, 1)]
+        return [(s, nb) for s in _subjects_cached(self.alpha, self.maxlen) for nb in ((0, 1, 2, 3) if self.alle else (0, 1))]
 
 
 _subj_cache = {}
@@ -676,7 +847,7 @@ def case_from_line(line, family="corpus"):
         pat, subj = rest.split("\t", 1)
         return Case(pat, parse_ere(pat), int(ic) & 1, family, notbol=int(nb), subj=subj)
     _, ic, ml, alpha, pat = line.split(" ", 4)
-    return Case(pat, parse_ere(pat), int(ic) & 1, family, alpha=alpha, maxlen=int(ml))
+    return Case(pat, parse_ere(pat), int(ic) & 1, family, alpha=alpha, maxlen=int(ml), alle=bool(int(ic) & 4))
 
 
 def _harness(exe, lines, wd, budget):
@@ -761,11 +932,56 @@ def tview(tree):
     return r[1]
 
 
-def judge(tree, icase, notbol, subj, res, lean):
-    if res.get('gl') == 'N': res = dict(res, gl=lean)
+BT_LIKE = ('bt', 'bb', 'nz', 'vu', 'vb')      # answers produced by the backtracking matcher
+PA_LIKE = ('pa', 'np', 'px', 'pb')            # ... by the parallel matcher
+
+
+def tre_hex_text(p):
+    """pattern text as tre-parse.c really read a \\x escape: after the first hex digit the SECOND digit is taken from the
+    character AFTER the next one (`ctx->re[1]` instead of `ctx->re[0]`), and after \\x{..} the closing brace is not
+    consumed.  Returns (text with placeholders, {placeholder: char}) or None when there is no \\x."""
+    if '\\x' not in p: return None
+    hx = lambda c: int(c, 16) if c and c in '0123456789abcdefABCDEF' else -1
+    out, sub, i, inbr = [], {}, 0, False
+    while i < len(p):
+        c = p[i]
+        if inbr:
+            out.append(c)
+            if c == ']' and p[i - 1] != '[' and p[i - 2:i] != '[^': inbr = False
+            i += 1; continue
+        if c == '[':
+            inbr = True; out.append(c); i += 1; continue
+        if c == '\\' and p[i + 1:i + 2] == 'x':
+            i += 2; val = 0
+            if p[i:i + 1] != '{':
+                if hx(p[i:i + 1]) >= 0:
+                    val = hx(p[i]); i += 1
+                if hx(p[i + 1:i + 2]) >= 0:
+                    val = val * 16 + hx(p[i + 1]); i += 1
+            else:
+                i += 1
+                while i < len(p) and p[i] != '}':
+                    if hx(p[i]) < 0: return None
+                    val = val * 16 + hx(p[i]); i += 1
+            ph = chr(0xE000 + len(sub)); sub[ph] = chr(val); out.append(ph)
+            continue
+        if c == '\\':
+            out.append(p[i:i + 2]); i += 2; continue
+        out.append(c); i += 1
+    return ''.join(out), sub
+
+
+def _subst_chr(t, sub):
+    if t[0] == 'chr': return ('chr', sub.get(t[1], t[1]))
+    return tuple(_subst_chr(x, sub) if isinstance(x, tuple) and x and isinstance(x[0], str) and len(x[0]) > 2 else x for x in t)
+
+
+def judge(tree, icase, notbol, subj, res, lean, pat=None):
     """res: dict engine->answer incl. 'gl'.  Returns list of issues:
        ('impl', engine, sig|None, got, want, pred) | ('corr', what, got, want) | ('glibc-known',)"""
-    pm = PM(subj, bool(icase), bool(notbol))
+    if res.get('gl') == 'N': res = dict(res, gl=lean)
+    ENGINES = tuple(e for e in ('bt', 'bb', 'pa', 'nz', 'np', 'px', 'pb', 'vu', 'vb') if e in res and res[e] != 'N')
+    pm = PM(subj, bool(icase), int(notbol))
     py = fmt(pm.ll(tree))
     issues = []
     if lean != py:
@@ -792,11 +1008,22 @@ def judge(tree, icase, notbol, subj, res, lean):
     auto = fmt(auto_t)
     negs = has_negated_bracket(tree)
     keep = []          # PM memoises by id(): keep the rewritten trees alive while pm is in use
+    hexpred = None
+    if pat and '\\x' in pat:
+        ht = tre_hex_text(pat)
+        if ht:
+            try:
+                hv = _subst_chr(parse_ere(ht[0]), ht[1]); keep.append(hv)
+                hexpred = fmt(pm.ll(hv))
+            except (ValueError, IndexError):
+                hexpred = None
     for e in ENGINES:
         v = res[e]
         if v == py: continue
         sig = None
-        if v != auto and negs:
+        if hexpred is not None and v == hexpred and len({res[x] for x in ENGINES}) == 1:
+            sig = 'tre-hex-escape'
+        elif v != auto and negs:
             # bracket defects of the compile stage (same answer from every engine): try TRE's real negated sets
             for rules, name in ((('overlap',), 'tre-negated-bracket-overlap'), (('overlap', 'negcopy'), 'tre-copy-neg-classes')):
                 for tie in ('asc', 'desc'):
@@ -809,10 +1036,10 @@ def judge(tree, icase, notbol, subj, res, lean):
             pass
         elif v == auto:
             sig = 'tre-repeat-position-collision' if auto != pred else 'tre-empty-path-anchor'
-        elif e in ('bt', 'bb') and v == '-' and auto_t is not None and auto_t[0] >= 1 and \
+        elif e in BT_LIKE and v == '-' and auto_t is not None and auto_t[0] >= 1 and \
                 (not exact or any(max(pm.alive(tv, p), default=-1) >= n - 1 for p in range(auto_t[0]))):
             sig = 'bt-restart-at-end'
-        elif e == 'pa' and auto_t is not None and _re.match(r'^\d+,\d+$', v):
+        elif e in PA_LIKE and auto_t is not None and _re.match(r'^\d+,\d+$', v):
             st, ln = auto_t
             st2, ln2 = unfmt(v)
             e2 = st2 + ln2
@@ -828,6 +1055,9 @@ SIGTEXT = {
     'pa-later-start': "parallel matcher lets a thread that started later override an already found leftmost match",
     'tre-negated-bracket-overlap': "a negated bracket whose items overlap ([^a-cb-e], [^BB-C]) accepts characters of the overlapping item (tre_parse_bracket advances curr_max but not curr_min)",
     'tre-copy-neg-classes': "a negated bracket with a named class loses the class in the copies made for x{m,n} ([^[:digit:]]{2} matches \"12\"): tre_copy_ast does not copy neg_classes",
+    'word-assertion-restart': "sub/gsub/split/match restart the search on the rest of the subject, and the matcher does not see the character before the rest: \\< \\b \\B hold or fail there as if the rest were a new subject (TRE extension, outside POSIX)",
+    'tre-hex-escape': "\\xHH takes its second digit from the character after the next one and \\x{H..} leaves the closing brace in the pattern (tre-parse.c; reachable through dynamic regex strings)",
+    'tre-rejects-collating': "bracket expressions with a collating symbol [.a.] or an equivalence class [=a=] (POSIX) are rejected with REG_ECOLLATE",
     'tre-repeat-position-collision': "expanding x{m,n} gives two literals the same position number (x{m,n} under two iterations, or x{0} inside an expanded repeat); the automaton accepts strings the pattern does not",
 }
 
@@ -889,8 +1119,8 @@ def shrink(ctx, exe, case0, subj, notbol, bad):
 # ----------------------------------------------------------------------------------------------
 def nullable(t):
     k = t[0]
-    if k in ('emp', 'bol', 'eol', 'star', 'opt'): return True
-    if k in ('chr', 'any', 'cls'): return False
+    if k in ('emp', 'bol', 'eol', 'wordb', 'star', 'opt'): return True
+    if k in ('chr', 'any', 'cls', 'mac'): return False
     if k in ('plus', 'grp'): return nullable(t[1])
     if k == 'rep': return t[2] == 0 or nullable(t[1])
     if k == 'cat': return nullable(t[1]) and nullable(t[2])
@@ -944,24 +1174,48 @@ def sim_split(s, mfun):
 
 LANG_FIXED = [("a(a|ab)$", "aaa", 0), ("(ab)*b", "ab", 0), ("a|b{2}", "ba", 0), ("ab*(a|ba)", "aaba", 0), ("b+", "abbab", 0),
               ("(a|ab)(b|bb)", "xabbb", 0), ("b*", "abc", 0), ("b*", "abbcb", 0), ("a?", "baab", 0), ("(a|b*)", "abba", 0),
-              ("^", "ab", 0), ("$", "ab", 0), ("[a-c]+", "xyzQab", 1), ("[^a-c]", "aXbYc", 1), ("[a]", "BaAb", 1)]
-LANG_KINDS = {'T': '~ / match()', 'U': 'sub()', 'G': 'gsub()', 'S': 'split()', 'F': 'regex FS'}
+              ("^", "ab", 0), ("$", "ab", 0), ("[a-c]+", "xyzQab", 1), ("[^a-c]", "aXbYc", 1), ("[a]", "BaAb", 1),
+              ("^a", "aab", 0), ("\\<.", "ab", 0), ("\\w+", "ab-cd", 0), ("a\\>", "aa a", 0), ("\\d+", "a12b3", 0),
+              ("[[:punct:]]+", "a-_b", 0), ("a{2,3}", "aaaaaaa", 0), ("\\Ba", "aaa a", 0)]
+LANG_KINDS = {'T': '~ / match()', 'A': 'match(s, re, arr)', 'M': 'str::match(s, re, start[, arr])', 'U': 'sub()', 'G': 'gsub()',
+              'E': 'gsub() on an array element', 'Z': 'gsub() on $0', 'S': 'split()', 'F': 'regex FS'}
+
+
+EXCLUDED = [
+    "back-references \\1..\\9 (not regular; not in POSIX ERE): rejected by the specification parser, never generated",
+    "minimal (non-greedy) repetition *? +? ?? {m,n}? (TRE extension; the two engines even disagree: a*? on aaa -> bt [0,3), pa [0,0))",
+    "approximate-matching parameters inside {..} ({~1}, {+1-1#1}, cost equations; TRE extension, hawk has no approximate matcher)",
+    "{,n} (undefined by POSIX; TRE reads min = -1)", "\\Q..\\E literal mode (TRE extension with its own quirks)",
+    "(?i)-style inline flags (REG_NONSTDEXT is never passed by hawk)", "basic regular expressions (hawk always compiles awk patterns with HAWK_TRE_EXTENDED; BRE is hawk-sed's, C18)",
+    "REG_NEWLINE, REG_LITERAL, REG_RIGHT_ASSOC, REG_UNGREEDY, REG_NOSUB compile flags (never passed by hawk_gem_buildrex)",
+    "\\b in a regex LITERAL (the awk lexer turns it into a backspace before TRE sees it); \\b is covered at harness level",
+    "non-ASCII subjects / multibyte range endpoints (C15 covers UTF-8; the model's case folding and classes are ASCII)",
+    "sub-match offsets (match()'s arr[1..], \\1 in sed): only the overall match is specified by the property",
+    "out-of-memory exits of the compiler and the matchers (C10)", "regex RS (record reader, chunk boundaries: C04)",
+]
+
+
+def has_wordb(t):
+    return t[0] == 'wordb' or any(has_wordb(x) for x in t[1:3] if isinstance(x, tuple) and x and isinstance(x[0], str) and len(x[0]) > 2)
 
 
 def language_level(ctx, libdir, exe, pats, stats):
     """every sample (nullable patterns included) on BOTH the character-string and the @b"..." byte-string variant of
-    the subject: ~ (regex literal and dynamic regex), match()/RSTART/RLENGTH, sub(), gsub(), split(), regex FS (FS:
-    character strings only).  The harness (bt for character strings, bb for byte strings) and the Lean spec are asked
-    for the match on every suffix and the awk function is simulated with both; the CLI must equal the simulation
-    with the spec's answers; if it only equals the simulation with the engine's own answers the deviation is the
-    engine's (judged, with signature, by the pair stream) — anything else is a wrapper/user problem.  The two
-    variants must also agree with each other."""
+    the subject: ~ (regex literal and dynamic regex), match()/RSTART/RLENGTH, match(s, re, arr) (arr[0], arr[0,"start"],
+    arr[0,"length"]), str::match(s, re, start[, arr]) for starts inside, at, beyond the ends and negative, sub(), gsub()
+    (on a variable, on $0, on an array element), split(), regex FS (FS and $0: character strings only).
+    Expectation: the awk function simulated with the leftmost-longest match of the pattern IN THE WHOLE SUBJECT among the
+    starts >= the restart position (python reference; for patterns without word assertions this is the Lean spec's
+    answer on the suffix with NOTBOL - `notbol_suffix_matchLL` - and the two are compared).  The CLI must equal it; if it
+    only equals the simulation with the engine's own answers on the suffixes (bt for character strings, bb for
+    bytes) the deviation is the engine's (judged, with signature, by the pair stream) - except for word assertions,
+    where it is the wrapper's (`word-assertion-restart`).  The two variants must also agree with each other."""
     hawk = os.path.join(ctx.scratch, "hawk")      # private copy: the shared build cache may be pruned while we run
     if not os.path.exists(hawk):
         import shutil
         shutil.copy2(os.path.join(libdir, "hawk"), hawk)
     rng = ctx.rng
-    n = 70 if ctx.tier == "quick" else 500
+    n = 70 if ctx.tier == "quick" else 300
     samples = []
     keys = list(pats)
     for i in range(n):
@@ -971,34 +1225,46 @@ def language_level(ctx, libdir, exe, pats, stats):
             p = rng.choice(keys); t = pats[p]
             s = ''.join(rng.choice("ab" if rng.random() < 0.8 else "abA") for _ in range(rng.randrange(0, 8)))
             ic = int(rng.random() < 0.25)
-        if p == '' or '/' in p or '\\' in p or '"' in p: continue
+        if p == '' or '/' in p or '"' in p or ('\\' in p and i >= len(LANG_FIXED)): continue
         samples.append((p, t, s, ic))
-    # suffix queries
+    # suffix queries: with NOTBOL for the restarts of sub/gsub/split, without for str::match's start index
     cases = []
     for p, t, s, ic in samples:
         for o in range(len(s) + 1):
             cases.append(Case(p, t, ic, "lang", notbol=int(o > 0), subj=s[o:]))
+            if o > 0: cases.append(Case(p, t, ic, "lang", notbol=0, subj=s[o:]))
     out, crashes = run_both(ctx, exe, cases, workers=4)
     tab = {}
     for c, h, l in out:
         if h is None or l is None or h.startswith("CERR") or l.startswith("PERR"): continue
         cols = split_cols(h)
         tab[(c.pat, c.icase, c.notbol, c.subj)] = {'spec': l, 'S': cols['bt'][0], 'B': cols['bb'][0]}
-    # one hawk program per IGNORECASE value; every sample in both variants
     evals = 0
+    wordb_dev = []
     for icv in (0, 1):
         sub = [x for x in samples if x[3] == icv]
         if not sub: continue
         stm = ["IGNORECASE=%d;" % icv]
         for k, (p, t, s, ic) in enumerate(sub):
+            dyn = p.replace('\\', '\\\\')
+            L = len(s)
             for v, lit in (('S', '"%s"' % s), ('B', '@b"%s"' % s)):
                 tag = "%d%s" % (k, v)
-                stm.append('s=%s; r=(s ~ /%s/); d=(s ~ "%s"); m=match(s, /%s/); printf("%s T %%d %%d %%d %%d %%d\\n", r, d, m, RSTART, RLENGTH);' % (lit, p, p, p, tag))
+                stm.append('s=%s; r=(s ~ /%s/); d=(s ~ "%s"); m=match(s, /%s/); printf("%s T %%d %%d %%d %%d %%d\\n", r, d, m, RSTART, RLENGTH);' % (lit, p, dyn, p, tag))
+                stm.append('m=match(s, /%s/, ma); printf("%s A %%d %%d %%d %%s\\n", m, RSTART, RLENGTH, (0 in ma)? (ma[0] "|" ma[0,"start"] "|" ma[0,"length"]): "none");' % (p, tag))
+                for q, k0 in enumerate((2, L + 1, -1, 0, L + 2)):
+                    if q == 0:
+                        stm.append('m=str::match(s, /%s/, %d); printf("%s M%d %%d %%d %%d -\\n", m, RSTART, RLENGTH);' % (p, k0, tag, q))
+                    else:
+                        stm.append('m=str::match(s, "%s", %d, mb); printf("%s M%d %%d %%d %%d %%s\\n", m, RSTART, RLENGTH, (0 in mb)? (mb[0] "|" mb[0,"start"] "|" mb[0,"length"]): "none");' % (dyn, k0, tag, q))
                 stm.append('u=s; g=sub(/%s/, "<&>", u); printf("%s U %%d %%s\\n", g, u);' % (p, tag))
                 stm.append('u=s; g=gsub(/%s/, "<&>", u); printf("%s G %%d %%s\\n", g, u);' % (p, tag))
+                stm.append('el["k"]=s; g=gsub(/%s/, "<&>", el["k"]); printf("%s E %%d %%s\\n", g, el["k"]);' % (p, tag))
                 stm.append('c=split(s, arr, /%s/); o=c; for(i=1;i<=c;i++) o=o "|" arr[i]; printf("%s S %%s\\n", o);' % (p, tag))
-                if v == 'S' and len(p) > 1:
-                    stm.append('FS="%s"; $0=s; o=NF; for(i=1;i<=NF;i++) o=o "|" $i; printf("%s F %%s\\n", o); FS=" ";' % (p, tag))
+                if v == 'S':
+                    stm.append('$0=s; g=gsub(/%s/, "<&>"); printf("%s Z %%d %%s\\n", g, $0);' % (p, tag))
+                    if len(p) > 1:
+                        stm.append('FS="%s"; $0=s; o=NF; for(i=1;i<=NF;i++) o=o "|" $i; printf("%s F %%s\\n", o); FS=" ";' % (dyn, tag))
         prog = "BEGIN { " + "\n".join(stm) + " }"
         pf = os.path.join(ctx.scratch, "lang%d.hawk" % icv)
         with open(pf, "w") as f: f.write(prog + "\n")
@@ -1014,44 +1280,81 @@ def language_level(ctx, libdir, exe, pats, stats):
             if len(w) >= 3 and w[0][:-1].isdigit(): got[(w[0], w[1])] = w[2]
         for k, (p, t, s, ic) in enumerate(sub):
             if (p, icv, 0, s) not in tab: continue
+            L = len(s)
+            pmw = PM(s, bool(icv), 0)
+            wb = has_wordb(t)
 
-            def mk(which):
+            def whole(o, fresh=False):
+                # leftmost-longest match of the pattern in the whole subject among the starts >= o, relative to o
+                # (fresh: the subject really is s[o:], as str::match's start index treats it)
+                if fresh: return PM(s[o:], bool(icv), 0).ll(t)
+                for st_ in range(o, L + 1):
+                    e_ = pmw.ends(t, st_)
+                    if e_: return (st_ - o, max(e_) - st_)
+                return None
+
+            def mk(which, nb=None):
                 def mfun(o):
-                    r = tab.get((p, icv, int(o > 0), s[o:]))
+                    r = tab.get((p, icv, int(o > 0) if nb is None else nb, s[o:]))
                     return None if r is None else unfmt(r[which])
                 return mfun
 
-            def expect(which):
-                m = mk(which)(0)
+            def expect(mf, mf0):
+                """mf(o): match at restart position o (NOTBOL context); mf0(o): match on s[o:] as a fresh subject"""
+                m = mf(0)
                 e1 = {'T': "%d %d %d %d %d" % ((1, 1, m[0] + 1, m[0] + 1, m[1]) if m else (0, 0, 0, 0, -1)),
-                      'U': sim_subst(s, mk(which), 1), 'G': sim_subst(s, mk(which), 1 << 60), 'S': sim_split(s, mk(which))}
+                      'A': ("%d %d %d %s|%d|%d" % (m[0] + 1, m[0] + 1, m[1], s[m[0]:m[0] + m[1]], m[0] + 1, m[1])) if m else "0 0 -1 none",
+                      'U': sim_subst(s, mf, 1), 'G': sim_subst(s, mf, 1 << 60), 'S': sim_split(s, mf)}
+                e1['E'] = e1['Z'] = e1['G']
                 if len(p) > 1: e1['F'] = e1['S']
+                for q, k0 in enumerate((2, L + 1, -1, 0, L + 2)):
+                    st0 = 1 if k0 == 0 else (L + k0 + 1 if k0 < 0 else k0)
+                    m2 = None if (st0 > L + 1 or st0 <= 0) else mf0(st0 - 1)
+                    if m2 is not None: m2 = (m2[0] + st0 - 1, m2[1])
+                    base = "%d %d %d" % ((m2[0] + 1, m2[0] + 1, m2[1]) if m2 else (0, 0, -1))
+                    e1['M%d' % q] = base + (" -" if q == 0 else (" %s|%d|%d" % (s[m2[0]:m2[0] + m2[1]], m2[0] + 1, m2[1]) if m2 else " none"))
                 return e1
-            want = expect('spec')
+            want = expect(whole, lambda o: whole(o, True))
+            if not wb:
+                lean_want = expect(mk('spec'), mk('spec', 0))
+                if lean_want != want:
+                    ctx.problem("corr", "language level: the simulation with the Lean spec's suffix answers differs from the whole-subject reference for /%s/ on %r: %r vs %r" % (p, s, lean_want, want),
+                                "# pattern %r subject %r IGNORECASE=%d\n" % (p, s, icv), found_input=False)
+                    return evals, cases
             seen = {}
             for v in ('S', 'B'):
-                own = expect(v)
-                for kind in ('T', 'U', 'G', 'S', 'F'):
-                    if kind not in want or (kind == 'F' and v == 'B'): continue
+                own = expect(mk(v), mk(v, 0))
+                for kind in sorted(want):
+                    if kind in ('F', 'Z') and v == 'B': continue
                     g = got.get(("%d%s" % (k, v), kind))
                     seen[(v, kind)] = (g, own[kind])
                     evals += 1
                     _bump(stats, 'lang_%s_%s' % (kind, 'str' if v == 'S' else 'bytes'))
                     if g == want[kind]: continue
+                    subj_lit = ('"%s"' if v == 'S' else '@b"%s"') % s
                     if g == own[kind]:
+                        if wb and mk('spec')(0) is not None or wb:
+                            # the engines answer the suffix queries as the spec does (the pair stream checks that); the
+                            # deviation is that the suffix is matched without the character before it
+                            wordb_dev.append((LANG_KINDS.get(kind[0], kind), subj_lit, p, icv, g, want[kind]))
                         _bump(stats, 'lang_engine_deviation')
                         continue   # the engine's deviation on one of the suffix pairs; those pairs are judged below
-                    subj_lit = ('"%s"' if v == 'S' else '@b"%s"') % s
                     ctx.problem("impl", "language level %s on %s: pattern /%s/ IGNORECASE=%d: hawk printed %r, leftmost-longest gives %r (with the engine's own answers: %r)" % (
-                        LANG_KINDS[kind], subj_lit, p, icv, g, want[kind], own[kind]),
+                        LANG_KINDS.get(kind[0], kind), subj_lit, p, icv, g, want[kind], own[kind]),
                         "# hawk program (sanitized CLI); look for the output line tagged %d%s %s\n" % (k, v, kind) + prog + "\n", found_input=True)
                     return evals, cases
-            for kind in ('T', 'U', 'G', 'S'):
+            for kind in sorted(want):
                 (gs, os_), (gb, ob) = seen.get(('S', kind), (None, None)), seen.get(('B', kind), (None, None))
-                if gs != gb and os_ == ob:
+                if kind not in ('F', 'Z') and gs != gb and os_ == ob:
                     ctx.problem("impl", "language level %s: pattern /%s/ subject %r IGNORECASE=%d: the character-string variant printed %r, the byte-string variant %r" % (
-                        LANG_KINDS[kind], p, s, icv, gs, gb), "# hawk program (sanitized CLI); output lines tagged %dS / %dB %s\n" % (k, k, kind) + prog + "\n", found_input=True)
+                        LANG_KINDS.get(kind[0], kind), p, s, icv, gs, gb), "# hawk program (sanitized CLI); output lines tagged %dS / %dB %s\n" % (k, k, kind) + prog + "\n", found_input=True)
                     return evals, cases
+    if wordb_dev:
+        kind, subj_lit, p, icv, g, w = wordb_dev[0]
+        stats['lang_word_assertion_restart'] = len(wordb_dev)
+        ctx.problem("impl", "%s [word-assertion-restart]: %d observations; first: %s on %s with /%s/: hawk printed %r, in the whole subject the answer is %r" % (
+            SIGTEXT['word-assertion-restart'], len(wordb_dev), kind, subj_lit, p, g, w),
+            "# hawk 'BEGIN { s=%s; n=gsub(/%s/, \"<&>\", s); print n, s }'\n" % (subj_lit, p), found_input=True, sig='word-assertion-restart')
     return evals, cases
 
 
@@ -1111,6 +1414,7 @@ def build_cases(ctx):
             pp = show(t)
             for ic in (0, 1):
                 cases.append(Case(pp, t, ic, "named", alpha="aB1z", maxlen=3))
+    extension_families(ctx, cases, pats)
     # products of factors (the family in which the parallel matcher's defect shows)
     fl = 5
     prods = [''.join(x) for n in (1, 2) for x in itertools.product(FACTORS, repeat=n)]
@@ -1165,19 +1469,29 @@ def judge_chunk(triples):
         if h.startswith("CERR") or l.startswith("PERR"):
             # both sides must reject together (TRE is the implementation; glibc's verdict is informative)
             if not (h.startswith("CERR tre=0") and l.startswith("PERR")):
-                if h.startswith("CERR tre=0"):
+                if h.startswith("CERR tre=0") and ('[.' in c.pat or '[=' in c.pat):
+                    e = sigs.setdefault('tre-rejects-collating', dict(count=0, by_engine={}, by_family={}, best=None))
+                    e['count'] += 1; _bump(e['by_engine'], 'compile'); _bump(e['by_family'], c.family)
+                    key = (len(c.pat), c.pat, '')
+                    if e['best'] is None or key < e['best'][0]:
+                        e['best'] = (key, c, '', 0, ('impl', 'compile', 'tre-rejects-collating', 'REG_ECOLLATE', 'a pattern POSIX defines (glibc compiles it: %s)' % h[-1:], ''),
+                                     {'bt': 'CERR', 'bb': 'CERR', 'pa': 'CERR', 'gl': 'compiles' if h.endswith('gl=1') else 'CERR'}, l)
+                elif h.startswith("CERR tre=0"):
                     unclassified.append((c, None, None, [('impl', 'bt', None, 'compile-error', 'accepted by the specification parser', '')]))
                 else:
                     corr.append((c, None, None, "pattern %r: hawk compiles it, the Lean parser says %s" % (c.pat, l)))
             _bump(stats, 'rejected_both')
             continue
+        if c.family == "invalid":
+            unclassified.append((c, None, None, [('impl', 'bt', None, 'compiled', 'a pattern POSIX defines as invalid must be rejected', '')]))
+            continue
         if h == "SLOW":
             _bump(stats, 'slow_patterns_skipped'); continue     # exponential matching time; every call returned
         if h == "bad-op" or l == "bad-op":
             corr.append((c, None, None, "protocol error on %r: %r / %r" % (c.line, h, l))); continue
-        hb, hbb, hpa, hgl = h.split(' ')
+        vals = {x[:2]: x[3:] for x in h.split(' ')}
         if c.noglibc:
-            hgl = "gl=" + l          # glibc was not asked (see glibc_skip): no second opinion on this pattern
+            vals['gl'] = l           # glibc was not asked (see glibc_skip): no second opinion on this pattern
             _bump(stats, 'patterns_without_glibc')
         prs = c.pairs()
         acc['evaluations'] += len(prs)
@@ -1192,17 +1506,18 @@ def judge_chunk(triples):
             if v is None: v = ntcache[k] = nontrivial(r, k[1])
             nt += v
         acc['nontriv'] += nt
-        if hb[3:] == l and hbb[3:] == l and hpa[3:] == l and hgl[3:] == l:
+        if len(vals) > 4: _bump(stats, 'requests_with_all_entry_points')
+        if all(v == l or v == 'N' for v in vals.values()):
             continue
-        cols = {'bt': hb[3:].split(';'), 'bb': hbb[3:].split(';'), 'pa': hpa[3:].split(';'), 'gl': hgl[3:].split(';')}
-        if not (len(prs) == len(cols['bt']) == len(cols['bb']) == len(cols['pa']) == len(cols['gl'])):
+        cols = {k: v.split(';') for k, v in vals.items()}
+        if any(len(v) != len(prs) for v in cols.values()):
             corr.append((c, None, None, "result count differs on %r" % c.line)); continue
         for i, (s, nb) in enumerate(prs):
             lr = lres[i]
-            if cols['bt'][i] == lr and cols['bb'][i] == lr and cols['pa'][i] == lr and cols['gl'][i] == lr:
+            if all(v[i] == lr or v[i] == 'N' for v in cols.values()):
                 continue
             res = {k: cols[k][i] for k in cols}
-            for iss in judge(c.tree, c.icase, nb, s, res, lr):
+            for iss in judge(c.tree, c.icase, nb, s, res, lr, c.pat):
                 if iss[0] == 'glibc-known':
                     _bump(stats, 'glibc_known_deviation')
                 elif iss[0] == 'corr':
@@ -1330,11 +1645,13 @@ def run(ctx):
     samples = [c.line.replace("\t", "<TAB>") for c in (cases[len(cases) // 3], cases[len(cases) // 2], cases[-1], cases[-7])]
     rule = ("pairs = (pattern, subject, IGNORECASE, NOTBOL): corpus + every ERE tree of size <= %d over atoms {a,b,.,^,$,empty,[ab],[^a]} and operators {*,+,?,(),{2},{1,2},{0,2},{2,},concat,|} x every subject over {a,b} up to length %d x NOTBOL; "
             "IGNORECASE/case-sensitivity runs over {a,A,b}; every bracket of one or two items (letters and ranges over a..e in both cases, negated or not) in 4 contexts x IGNORECASE x every subject up to length 2 over {a,A,b,B,c,C,d,D,z,Z}; named classes alone or with one character, negated or not, bare and inside expanded repeats, over {a,B,1,z}; products of <= 3 of %d hand-picked factors; seeded random trees of size 5-12 (with {m,n}, ranges, A) on short exhaustive and longer random subjects; "
-            "language level ~ (literal and dynamic regex), match()/RSTART/RLENGTH, sub, gsub, split on BOTH the character-string and the @b byte-string variant of each subject (nullable patterns included), regex FS, through the sanitized CLI. Each pair: bt/bb/pa engines vs python reference vs glibc vs Lean matchLL. "
+            "escaped literals; TRE extensions the specification covers (\\w \\W \\s \\S \\d \\D, \\< \\> \\b \\B incl. every tree of size <= 3 over them, control and hex escapes); all twelve named classes; collating symbols / equivalence classes; every interval form {m}{m,}{m,n} for m,n <= 3; patterns POSIX defines as invalid (must be rejected); NOTEOL (eflags 0..3); a sample of M requests through every entry point (hawk_tre_comp/exec NUL-terminated, execx, execbchars parallel, matchvalwithucs/bcs with a string value); "
+            "language level ~ (literal and dynamic regex), match()/RSTART/RLENGTH, match(s,re,arr), str::match(s,re,start[,arr]), sub, gsub (variable, $0, array element), split on BOTH the character-string and the @b byte-string variant of each subject (nullable patterns included), regex FS, through the sanitized CLI. Each pair: bt/bb/pa engines vs python reference vs glibc vs Lean matchLL. "
             "distinct_nontrivial = pairs whose leftmost-longest match does not start at 0 or is a proper non-empty prefix of the subject" % (
                 (4, 5, len(FACTORS)) if ctx.tier == "quick" else (5, 5, len(FACTORS)))) + ("" if ctx.tier == "quick" else "; thorough also: size <= 4 on subjects up to length 6")
     return C.finish(ctx, [proof], evaluations, nontriv, rule,
-                    samples, extra_cov=stats,
+                    samples,
+                    extra_cov=dict(stats, excluded_constructs=EXCLUDED),
                     trusted=["TRE (tre-parse.c, tre-compile.c, tre-match-bt.c, tre-match-pa.c) is NOT modelled: the implementation claim is the bounded exhaustive comparison above, not a proof",
                              "ERE text -> Re parser in Drv/Rex.lean is unverified (cross-checked by the python parser/reference matcher and glibc on every pair)",
                              "python reference matcher and tre_view (TRE's empty-path rule) in vlib/props/c06.py decide signatures"],
